@@ -1,3 +1,4 @@
+pub mod gen;
 pub mod mbref;
 pub mod num;
 pub mod prob;
